@@ -11,8 +11,11 @@ Everything is drawn from the rng passed in.
 WORDS = ["alpha", "Beta", "gamma", "delta", "On", "the", "of", "Graphs", "theory", "A", "z", "x1", "und", "de", "la", "IEEE", "Proc."]
 NONASCII = ["é", "ü", "Ångström", "ß", "naïve", "Müller", "日本", "語", "é", "Ž", "ø"]
 LATIN1 = ["é", "ü", "Ångström", "ß", "naïve", "Müller", "ø"]
-SPECIAL = [r"\'e", r"\"o", r"\&", r"\\", r"\%", "e-mail@host.org", "$x^2$", "$a_{i}$", "http://ex.org/a?b=1,c", "a,b", "x=y", "50\\%", "~", "--", "#", "@", "{\\'E}x", "\\{", "\\}", '\\"']
+SPECIAL = [" = ", ",\n", "{x}\n", "@string", "@comment", "% WARNING Parsing failed for the following 1 lines.", r"\'e", r"\"o", r"\&", r"\\", r"\%", "e-mail@host.org", "$x^2$", "$a_{i}$", "http://ex.org/a?b=1,c", "a,b", "x=y", "50\\%", "~", "--", "#", "@", "{\\'E}x", "\\{", "\\}", '\\"']
 TYPES = ["article", "book", "Article", "inproceedings", "MISC", "techreport", "a", "x_1", "online"]
+# \w matches far more than ASCII: entry types (and keys) in other scripts, with case mappings that change length
+UTYPES = ["artículo", "Статья", "İnproceedings", "BOOK_ß", "論文", "ǅemal", "ﬁle", "２０２０", "Ångström"]
+UKEYS = ["Müller2020", "陳:2019", "İstanbul", "straße", "Ǆ1", "é", "ﬁ", "Σίσυφος", "x̃"]
 FKEYS = ["title", "author", "year", "journal", "month", "pages", "note", "url", "Title", "editor", "x-y", "f_1", "volume", "abstract", "doi"]
 STRKEYS = ["jan", "acm", "ieee", "me", "pub", "long_name", "S1"]
 KEYCHARS = "abcdefghijklmnopqrstuvwxyzABCXYZ0123456789_:.-/+"
@@ -143,6 +146,10 @@ def _key(rng, k, pool):
         return rng.choice(pool)
     n = rng.randint(1, 8)
     kk = "".join(rng.choice(KEYCHARS) for _ in range(n))
+    if k["nonascii"] == "any" and rng.random() < 0.12:
+        kk = rng.choice(UKEYS) + kk[:2]
+    elif n > 2 and rng.random() < 0.06:
+        kk = kk[:1] + " " + kk[1:]          # a key with a blank inside ("Smith 2020")
     if pool and rng.random() < k.get("casekeys", 0.0):
         kk = rng.choice(pool).swapcase()      # differs from an earlier key in letter case only (distinct keys in BibTeX files)
     while not k["collide"] and kk in pool:
@@ -186,7 +193,7 @@ def make_doc(rng, knobs=None):
         b = {"kind": kind}
         start = pos
         if kind == "entry":
-            t = rng.choice(TYPES)
+            t = rng.choice(UTYPES) if k["nonascii"] == "any" and rng.random() < 0.15 else rng.choice(TYPES)
             key = _key(rng, k, entry_keys)
             emit("@" + t + rng.choice(["", "", " ", "\t"]) + "{" + _ws(rng, k, "x") + key)
             nf = rng.randint(0, k["maxfields"])
@@ -272,7 +279,7 @@ def make_doc(rng, knobs=None):
 
 def draw_knobs(rng, tier="quick", encoding="utf-8"):
     return {
-        "nblocks": rng.choice([1, 2, 3, 4, 5, 6, 8, 12] if tier == "quick" else [1, 2, 3, 5, 8, 12, 20, 40]),
+        "nblocks": rng.choice([0, 1, 1, 2, 3, 4, 5, 6, 8, 12] if tier == "quick" else [0, 1, 2, 3, 5, 8, 12, 20, 40]),
         "nonascii": {"utf-8": rng.choice(["none", "any", "any"]), "utf-16": rng.choice(["none", "any"]),
                      "latin-1": rng.choice(["none", "latin1"]), "gbk": "none"}.get(encoding, "none"),
         "newline": rng.choice(["\n", "\n", "\n", "\r\n", "\r\n", "\r"]),
